@@ -62,8 +62,14 @@ func (db *DB) Merge() error {
 
 	// 获取 merge 临时目录路径
 	mergePath := db.mergePath()
-	// 如果存在上次 merge 的残留目录, 将其删除
+	// 如果存在上次 merge 的残留目录, 将其删除.
+	// 残留目录可能属于一次已完成但尚未被采用的 merge (未重启再次执行 Merge): RemoveAll 不是原子操作,
+	// 必须先删除完成标识, 否则进程在删除中途崩溃后, 残缺的目录会被下次 Open 当作已完成的 merge 采用
 	if _, err := os.Stat(mergePath); err == nil {
+		markerFile := datafile.GetFileName(mergePath, 0, datafile.MergeFinishedFileSuffix)
+		if err := os.Remove(markerFile); err != nil && !os.IsNotExist(err) {
+			return err
+		}
 		verifhook.Point("merge.rmleftover", mergePath)
 		if err := os.RemoveAll(mergePath); err != nil {
 			return err
